@@ -52,6 +52,13 @@ impl Authorizer {
                     .max_iterations
                     .checked_sub(self.world.iterations)
                     .ok_or(error::Token::RunLimit(error::RunLimit::TooManyIterations))?;
+                // a successful run always leaves iterations below the budget: a world that
+                // consumed all of it comes from a run that hit the limit (possibly before a
+                // snapshot round trip)
+                if limits.max_iterations == 0 && self.world.iterations > 0 {
+                    self.run_failure = Some(error::RunLimit::TooManyIterations);
+                    return Err(error::Token::RunLimit(error::RunLimit::TooManyIterations));
+                }
                 let res = self.world.run_with_limits(&self.symbols, limits);
                 if let Err(error::Execution::RunLimit(limit)) = &res {
                     self.run_failure = Some(limit.clone());
